@@ -1,5 +1,7 @@
 import NbioVerif.Model.Resp
 import NbioVerif.Model.Own
+import NbioVerif.Model.OwnBody
+import NbioVerif.Model.Http
 import NbioVerif.DrvCommon
 /-! respdrv: line-protocol driver of the HTTP response model (harness/cmd/hresp).  See the header of
 harness/cmd/hresp/main.go for the op and result formats. -/
@@ -77,11 +79,55 @@ def showRes : WRes → String
 inductive Phase | none | running | dead | done
   deriving DecidableEq
 
+/-- body-case state: the HTTP parser model supplies what the parser does with the bytes, the request-side
+ownership twin consumes it -/
+structure BS where
+  hg : Http.Cfg
+  hp : Http.P
+  cache : List UInt8 := []
+  ps : Own.PS := {}
+  maxBody : Nat := 0
+  rl : Nat := 0
+  handler : Own.Handler := {}
+  dead : Bool := false
+
 structure DS where
   g : Cfg
   r : R
   ph : Phase
   o : Own.O := {}
+  b : Option BS := none
+
+/-- the tracker's capacity policy -/
+def capOf (n : Nat) : Nat := max 64 ((n + 63) / 64 * 64)
+
+def bodyCfg : Cfg :=
+  let g : Cfg := { proto := str "HTTP/1.1", proto11 := true, reqClose := false, head := fun _ => [] }
+  { g with head := headBytes g }
+
+/-- handler program "r10,c,w5" → twin handler; the response operations get their environment answers from
+the byte-level response model -/
+def mkHandler (hp : String) : Option Own.Handler :=
+  if hp == "-" then some { ops := [], fin := Own.flushEnv bodyCfg {} } else
+  let rec go (toks : List String) (r : R) (acc : List Own.HOp) : Option Own.Handler :=
+    match toks with
+    | [] => some { ops := acc.reverse, fin := Own.flushEnv bodyCfg r }
+    | t :: rest =>
+      match (t.drop 1).toString.toNat? with
+      | none => if t == "c" then go rest r (.close :: acc) else none
+      | some n =>
+        if t.startsWith "r" then go rest r (.read n :: acc)
+        else if t.startsWith "w" then
+          let e := Own.writeEnv bodyCfg r
+          go rest (write bodyCfg r (pattern n 5)).1 (.resp e (.write n) :: acc)
+        else none
+  go (hp.splitOn ",") {} []
+
+def showRd (out : List (Nat × Bool)) : String :=
+  if out.isEmpty then "-" else String.intercalate "," (out.map fun p => s!"{p.1}{if p.2 then "e" else ""}")
+
+def showPRes : Own.PRes → String
+  | .ok => "ok" | .err => "err" | .closed => "closed" | .tooLong => "toolong"
 
 def mkCfg (ws : List String) : Option Cfg := do
   let v ← field ws "v"
@@ -121,9 +167,45 @@ partial def loop (h : IO.FS.Stream) (s : DS) : IO Unit := do
   match ws with
   | "C" :: "resp" :: rest =>
     match mkCfg rest with
-    | some g => IO.println "ok"; loop h { g := withHead g, r := {}, ph := .running, o := {} }
+    | some g => IO.println "ok"; loop h { g := withHead g, r := {}, ph := .running, o := {}, b := none }
     | none => IO.println "bad-op"; loop h { s with ph := .none }
-  | "C" :: _ => IO.println "bad-op"; loop h { s with ph := .none }
+  | "C" :: "body" :: rest =>
+    match field rest "maxbody", field rest "rl", (field rest "hp").bind mkHandler with
+    | some mb, some rl, some hd =>
+      let hg : Http.Cfg := { isClient := false, maxBody := mb.toNat!, urlOk := fun _ => true, protoOk := fun _ => true }
+      IO.println "ok"
+      loop h { s with ph := .none, b := some { hg, hp := Http.init hg, maxBody := mb.toNat!, rl := rl.toNat!, handler := hd } }
+    | _, _, _ => IO.println "bad-op"; loop h { s with ph := .none, b := none }
+  | "C" :: _ => IO.println "bad-op"; loop h { s with ph := .none, b := none }
+  | ["D", hx] =>
+    match s.b with
+    | none => IO.println "bad-op"; loop h s
+    | some b =>
+      if b.dead then IO.println "dead"; loop h s else
+      let data := unhex hx
+      let r := Scan.implParse (Http.machine b.hg) b.hp b.cache data []
+      let evs : List (Option Nat) := r.evs.filterMap fun ev =>
+        match ev with | .body d => some (some d.length) | .complete => some none | _ => none
+      let pres : Own.ParseRes := match r.fin with
+        | .inl (_, c) => { evs, err := false, left := c.length }
+        | .inr _ => { evs, err := true, left := 0 }
+      let n0 := b.ps.heap.trace.length
+      let (ps, res, out) := Own.parse capOf b.maxBody b.rl b.handler b.ps data.length pres
+      let cl := match ps.cache with | some (_, l) => l | none => 0
+      IO.println s!"R {showPRes res} rd={showRd out} cache={cl} tr={Own.traceSince ps.heap n0}"
+      let b := match res, r.fin with
+        | .ok, .inl (p', c') => { b with ps, hp := p', cache := c' }
+        | .closed, _ => { b with ps }
+        | _, _ => { b with ps, dead := true }
+      loop h { s with b := some b }
+  | ["X"] =>
+    match s.b with
+    | none => IO.println "bad-op"; loop h s
+    | some b =>
+      let n0 := b.ps.heap.trace.length
+      let ps := Own.closeAndClean b.ps
+      IO.println s!"X tr={Own.traceSince ps.heap n0}"
+      loop h { s with b := some { b with ps, dead := false } }
   | "H" :: _ :: v :: rest =>
     match field rest "ck" with
     | some ck => plain "H" (.setHeader (payload ck) (payload v))
